@@ -46,7 +46,7 @@ def strip_dev_deps(scratch):
     open(cargo, "w").write("\n".join(out) + "\n")
 
 
-def run_group(scratch, group, timeout=1800, only=None):
+def run_group(scratch, group, timeout=900, only=None):
     """Inject the module, run its #[test]s natively. Returns list of results per check."""
     p = os.path.join(scratch, group.inject)
     if not os.path.exists(p):
@@ -72,9 +72,18 @@ def run_group(scratch, group, timeout=1800, only=None):
         kani_leg.common_purge(kani_leg.REPLAY_TARGET, scratch)
         rc, so, se, wall = run(cmd, cwd=scratch, timeout=timeout, env=env)
     text = so + "\n" + se
-    if rc == -9:
-        raise Undecided("native group %s timed out" % group.name)
     aborted = None
+    hung = False
+    if rc == -9:
+        # killed after `timeout` seconds (many times what the group needs on the unchanged tree): the scenario that was
+        # running did not terminate -- for code that must never wedge a connection that is a failed scenario, reported
+        # like an aborted one. If nothing had started yet it is a tool problem.
+        started = re.findall(r"^test (\S+) \.\.\. ?(ok|FAILED)?", text, re.M)
+        running = [n for n, v in started if not v]
+        if not running:
+            raise Undecided("native group %s timed out before any scenario started" % group.name)
+        aborted = running[-1].split("::")[-1]
+        hung = True
     if "test result:" not in text and re.search(r"signal: 6|SIGABRT|process abort signal|panic in a destructor|panicked while panicking", text):
         # a panic inside a destructor (or while unwinding) aborts the whole test process: that IS a crash of the
         # code under test in the scenario that was running (the last test announced without a verdict)
@@ -93,7 +102,8 @@ def run_group(scratch, group, timeout=1800, only=None):
             if name == aborted:
                 pm = re.findall(r"panicked at [^\n]*\n([^\n]*)", text)
                 results.append({"check": name, "group": group.name, "status": "FAILED", "clause": group.default_clause,
-                                "message": "the test process ABORTED (panic inside a destructor / while unwinding) during this scenario: " + (pm[-1] if pm else "abort"),
+                                "message": ("the scenario did NOT TERMINATE: killed after %d s (the code under test loops forever or waits without end)" % int(wall)) if hung else
+                                           "the test process ABORTED (panic inside a destructor / while unwinding) during this scenario: " + (pm[-1] if pm else "abort"),
                                 "cases": 0, "nontrivial": 0, "meta": meta, "wall_s": wall})
             elif re.search(r"test \S*::%s \.\.\. ok" % re.escape(name), text):
                 results.append({"check": name, "group": group.name, "status": "ok", "clause": None, "message": None,
